@@ -51,7 +51,15 @@ impl Parser {
                             .to_owned(),
                     )]);
                 }
-                break;
+
+                let supplied = input.children().count();
+                let expected = expected_types.len();
+
+                return Err(vec![new_err(
+                    child.as_span(),
+                    &input.user_data().get_source_file_name(),
+                    format!("supplied {supplied} arguments, but this function's signature specifies {expected} (Expected arguments: `({expected_parameters})`)"),
+                )]);
             }
 
             child_span = child.as_span();
